@@ -68,7 +68,7 @@ CHECKS["C08"] = dict(level="model_checking", design="5 C08",
 
 CHECKS["C12"] = dict(level="model_checking", design="5 C12",
    text="spec/Cluster.tla models the offset hand-over between leaders and followers (per-table per-source offsets, the last-delivered offset of a link, the leader's per-(follower, table) starting points and reader restart, follower-side de-duplication, flush, crash, restart from a directory snapshot, link cuts, leader restarts); TLC checks NoDuplicate, OnlyRouted, Persisted and Converged over every interleaving of a small instance; TLC-simulated fault sequences are replayed on an in-process cluster of real databases (1-2 leaders, 2-3 partitions, 1-2 followers each) with harness-owned links and crash images, and at every exactly-detected quiescent point every follower table is compared with the reference bag: never more than was inserted, replicas of a partition equal, the partitions together exactly the inserted points.",
-   note="The leader's bookkeeping of every execution (connect messages, starting points, entries with the followers included, deliveries) is validated by TLC against spec/TraceFollow.tla. The gRPC transport and server.followSource's back-off loop are replaced by harness-owned links that follow the same hand-over protocol (same Follow message reused, EarliestOffset = last delivered offset). No trace validation of the leader's internal pipeline in this round: the specification is bound through replayed behaviours and state comparison at quiescent points.",
+   note="An rpc part drops and re-establishes the real rpc follow streams of follower databases (zvwire) while points arrive. The leader's bookkeeping of every execution (connect messages, starting points, entries with the followers included, deliveries) is validated by TLC against spec/TraceFollow.tla. The gRPC transport and server.followSource's back-off loop are replaced by harness-owned links that follow the same hand-over protocol (same Follow message reused, EarliestOffset = last delivered offset). No trace validation of the leader's internal pipeline in this round: the specification is bound through replayed behaviours and state comparison at quiescent points.",
    technique="TLA+ model checking (TLC) + replay of TLC fault sequences into an in-process cluster of the real code + trace validation of the leader's follower bookkeeping (TraceFollow.tla)")
 CHECKS["C10"] = dict(level="model_checking", design="5 C10",
    text="On the clusters of C12 (P in 1..5, 1-2 leaders, 1-2 followers per partition, tables partitioned by each dimension subset, by nothing, and by dimensions the table's own GROUP BY drops) every generated query (pushdown-eligible or not: grouping, period multiples, stride, shift, crosstab, time ranges, WHERE, HAVING, IN- and FROM-sub-queries, ORDER BY, LIMIT) is run through a leader and on a standalone database fed the same points; rows must be equal as multisets, in the same order where ORDER BY decides it; the partitions of every table together hold every inserted point exactly once (the routing is observed, not predicted).",
